@@ -24,6 +24,9 @@ func init() {
 		runMintSched)
 }
 
+// schedModelOff: after a model/implementation disagreement the scheduled and crash streams continue model-free
+var schedModelOff bool
+
 type schedEnv struct {
 	c    *Ctx
 	env  *MintEnv
@@ -40,12 +43,14 @@ func newSchedEnv(c *Ctx, idx int, props []string) *schedEnv {
 		c.Disagree(props, "setup", err.Error(), "", nil)
 		return nil
 	}
-	s := NewSeq(c, env, true, props)
+	s := NewSeq(c, env, !schedModelOff, props)
 	init := L(A("mint.init"), N(0), B(false), B(false), N(0), N(0), N(0))
 	s.log = append(s.log, Render(init))
-	if m := c.Drv.Ask(init); m != "(ok)" {
-		c.Disagree(props, Render(init), "(ok)", m, nil)
-		return nil
+	if !schedModelOff {
+		if m := c.Drv.Ask(init); m != "(ok)" {
+			c.Disagree(props, Render(init), "(ok)", m, nil)
+			return nil
+		}
 	}
 	return &schedEnv{c: c, env: env, s: s, g: &gen{c: c, s: s, env: env, r: c.Rng}, idx: idx}
 }
